@@ -420,8 +420,12 @@ impl<'s> Tokenizer<'s> {
     fn syntax_error(&mut self, msg: &'static str) -> Error {
         let mut span = self.span(self.loc());
         if span.start_col == span.end_col {
-            span.end_col += 1;
-            span.end_offset += 1;
+            span.end_col = span.end_col.saturating_add(1);
+            // extend over the whole offending character (nothing at the end of
+            // the input) so that the range stays a valid slice of the source.
+            if let Some(c) = self.rest().chars().next() {
+                span.end_offset += c.len_utf8() as u32;
+            }
         }
         let mut err = Error::new(ErrorKind::SyntaxError, msg);
         err.set_filename_and_span(self.filename, span);
